@@ -1,5 +1,6 @@
 """C10 — Scheduler completes each coroutine once and honours delays and cancels (structural clauses)."""
 from rules.common import start
+from rules import wave3
 from rules import sched
 
 
@@ -17,4 +18,7 @@ def run(tier):
         sched.delay_rule(run, f, "C10-DELAY")
         sched.cancel_rule(run, f, "C10-CANCEL")
         sched.try_resume_rule(run, f, "C10-CALLBACK")
+    # clauses added for the wave-2 seeds (rules/wave2.py; DESIGN 12a)
+    for _cfg, f in fx.items():
+        wave3.promotion_exits_rule(run, f, "C10-PROMOTION-EXITS")
     return run.finish()
